@@ -263,20 +263,22 @@ def oracles(ctx, cfg, m, b, tag):
     SC = np.asarray(sc.transpose("n", cfg["sdim"], "mode").values)
     idxs = draws(seed, n, B)
     Mflat = flat_features(m.components(), None)
+    # scale of the variances of this data set (a resample may be constant: its own variances are ~0)
+    scX = max(float(((X - X.mean(axis=0)) ** 2).sum() / (n - 1)), 1e-300)
     members = []
     for i in range(B):
         ind = independent_member(X, idxs[i], k)
         members.append(ind)
         Vp = flat_features(comps, i)            # public components of member i
         Zp = SC[i]
-        sc2 = max(ind["s"][0] ** 2 / (n - 1), 1e-300)
+        sc2 = max(ind["s"][0] ** 2 / (n - 1), 1e-12 * scX)
         if not np.allclose(EV[i], ind["lam"], rtol=1e-7, atol=1e-9 * sc2):
             bad.append(("expvar", "member %d: explained variances %s differ from the EOF analysis of the resample drawn with the same generator state %s"
                         % (i + 1, EV[i].tolist(), ind["lam"].tolist())))
             continue
         if not np.allclose(TV[i], ind["tv"], rtol=1e-7):
             bad.append(("totvar", "member %d: total variance %r differs from the resample's %r" % (i + 1, float(TV[i]), ind["tv"])))
-        if np.any(EV[i] < -1e-9 * sc2) or np.any(np.diff(EV[i]) > 1e-9 * sc2) or EV[i].sum() > TV[i] * (1 + 1e-9) + 1e-300:
+        if np.any(EV[i] < -1e-9 * sc2) or np.any(np.diff(EV[i]) > 1e-9 * sc2) or EV[i].sum() > TV[i] * (1 + 1e-9) + 1e-9 * sc2:
             bad.append(("order", "member %d: explained variances are not non-negative, descending and bounded by the total variance" % (i + 1)))
         if Vp.shape != (Mflat.shape[0], k):
             bad.append(("structure", "member %d: components have %s non-NaN feature rows, the model's have %s" % (i + 1, Vp.shape, Mflat.shape)))
@@ -312,13 +314,18 @@ def flat_features_like(m, Vs):
     return flat_features(m.preprocessor.inverse_transform_components(da), None)
 
 
-def reproducible(ctx, cfg, m, b):
-    """same seed: identical resamples, members equal to solver accuracy; another seed: other resamples"""
+def reproducible(ctx, cfg, m, b, members):
+    """same seed: identical resamples (hence identical variances), members equal to solver accuracy — vectors are compared for the
+    members whose retained modes are separated by a spectral gap (the others are not determined by the resample); another seed: other resamples"""
     b2 = run_boot(m, cfg["B"], cfg["seed"])
     ok = True
+    det = np.array([bool(ind["gap"]) for ind in members])
     for nm in ("explained_variance", "total_variance", "components", "scores"):
-        a1, a2 = np.asarray(b.data[nm].values), np.asarray(b2.data[nm].values)
-        if a1.shape != a2.shape or not np.allclose(a1, a2, rtol=1e-7, atol=1e-9 * max(1e-300, np.nanmax(np.abs(a1)))):
+        a1, a2 = np.asarray(b.data[nm].transpose("n", ...).values), np.asarray(b2.data[nm].transpose("n", ...).values)
+        if a1.shape == a2.shape and nm in ("components", "scores"):
+            a1, a2 = a1[det], a2[det]
+        sc = max(1e-300, float(np.nanmax(np.abs(np.asarray(b.data[nm].values)))))
+        if a1.shape != a2.shape or not np.allclose(a1, a2, rtol=1e-7, atol=1e-9 * sc):
             ok = False
             ctx.violation("C20:reproducible:%s" % nm, "two runs with seed %r give different %s (max diff %g)" % (
                 cfg["seed"], nm, float(np.nanmax(np.abs(a1 - a2))) if a1.shape == a2.shape else float("nan")),
@@ -445,7 +452,7 @@ def run(ctx):
         nontriv = False
         if pack is not None:
             if i % 3 == 0:
-                reproducible(ctx, cfg, m, b)
+                reproducible(ctx, cfg, m, b, pack[3])
             if cfg["B"] <= 8:
                 txt, nontriv = coq_case(cfg, m, b, pack)
                 cases.append(txt)
@@ -519,7 +526,7 @@ def replay(ctx, rp):
             print("  proposed patch:\n" + r["proposed_patch"])
         ctx.violation(rp["key"], rp["what"], r)
         return
-    ok, _ = oracles(ctx, cfg, m, b, "replay")
-    if r.get("kind") == "repro":
-        reproducible(ctx, cfg, m, b)
+    ok, pack = oracles(ctx, cfg, m, b, "replay")
+    if r.get("kind") == "repro" and pack is not None:
+        reproducible(ctx, cfg, m, b, pack[3])
     print("  observed: bootstrapper ran; oracles %s" % ("hold" if ok else "fail"))
